@@ -164,7 +164,8 @@ fn run_case(seed: u64, lean: &mut Lean, hist: &mut BTreeMap<String, u64>, sample
     let mut progs_enc: Vec<String> = progs.iter().map(|p| if p.is_empty() { "-".into() } else { p.iter().map(enc_cmd).collect::<Vec<_>>().join(",") }).collect();
     progs_enc.push(vec!["G"; 64].join(","));
     let rep = lean.ask(&format!("conc.init {} {} {} {}", db.seqno(), db.visible_seqno(), if nofloor { "nofloor" } else { "floor" }, progs_enc.join("|")));
-    if rep != "ok" { fail!("harness", "conc.init: {rep}"); return (fails, false, 0); }
+    let nm = no_model();
+    if !nm && rep != "ok" { fail!("harness", "conc.init: {rep}"); return (fails, false, 0); }
 
     // agents
     { let mut g = ctl().m.lock().unwrap(); g.clear(); for _ in 0..n { g.push(Agent::default()); } }
@@ -197,7 +198,7 @@ fn run_case(seed: u64, lean: &mut Lean, hist: &mut BTreeMap<String, u64>, sample
         let (c, v) = (db.seqno(), db.visible_seqno());
         let f = fjall::verif::tracker_write_floor(&db).map(|x| x.to_string()).unwrap_or("none".into());
         let (mc, mv, mf) = (field(&$rep, "c"), field(&$rep, "v"), field(&$rep, "f"));
-        if mc != c.to_string() || mv != v.to_string() || (!nofloor && mf != f) {
+        if !nm && (mc != c.to_string() || mv != v.to_string() || (!nofloor && mf != f)) {
             fail!("model-vs-impl", "after {}: real (counter={c}, visible={v}, floor={f}) model (counter={mc}, visible={mv}, floor={mf})", $what);
             aborted = true;
         }
@@ -231,7 +232,7 @@ fn run_case(seed: u64, lean: &mut Lean, hist: &mut BTreeMap<String, u64>, sample
             // block probe: the agent must not get past the lock
             if pending.is_none() && r.chance(1, 2) {
                 let rep = lean.ask(&format!("conc.step {t}"));
-                if !rep.starts_with("blocked") { fail!("model-vs-impl", "model lets thread {t} take the journal lock while thread {holder:?} holds it: {rep}"); break; }
+                if !nm && !rep.starts_with("blocked") { fail!("model-vs-impl", "model lets thread {t} take the journal lock while thread {holder:?} holds it: {rep}"); break; }
                 release(t);
                 std::thread::sleep(Duration::from_millis(if thorough { 40 } else { 15 }));
                 let g = ctl().m.lock().unwrap();
@@ -252,54 +253,58 @@ fn run_case(seed: u64, lean: &mut Lean, hist: &mut BTreeMap<String, u64>, sample
         if holder.map(|h| h != t && (at[h] == "write.drawn" || at[h] == "write.item")).unwrap_or(false) { inside_window = true; }
         // model step
         let rep = lean.ask(&format!("conc.step {t}"));
-        if !rep.starts_with("ok") { fail!("model-vs-impl", "model refuses the step of thread {t} at {point} ({cmd:?}): {rep}"); break; }
+        if !nm && !rep.starts_with("ok") { fail!("model-vs-impl", "model refuses the step of thread {t} at {point} ({cmd:?}): {rep}"); break; }
         // real step
-        let c_before = db.seqno();
         release(t);
         let Some(mut now) = wait_parked(t, long) else { fail!("impl-vs-oracle", "thread {t} did not reach its next pause point from {point} ({cmd:?}) within 10 s (deadlock?)"); aborted = true; break; };
         trace.push(format!("t{t}: {point} -> {now}"));
-        // expectations
+        // expectations (what the model's step corresponds to) and bookkeeping (from what was observed)
         let mut expect: &str = "";
         match (point, &cmd) {
-            ("cmd.begin", Some(Cmd::Write(items))) => { expect = "write.locked"; holder = Some(t); items_left[t] = items.len(); }
-            ("cmd.begin", Some(Cmd::Rotate(_))) => { expect = "rotate.locked"; holder = Some(t); }
-            ("cmd.begin", Some(Cmd::Snap)) => { expect = "snapshot.loaded"; loaders += 1; if holder.map(|h| at[h] == "write.drawn" || at[h] == "write.item").unwrap_or(false) { *hist.entry("open-inside-apply-window".into()).or_insert(0) += 1; } }
+            ("cmd.begin", Some(Cmd::Write(items))) => { expect = "write.locked"; items_left[t] = items.len(); }
+            ("cmd.begin", Some(Cmd::Rotate(_))) => { expect = "rotate.locked"; }
+            ("cmd.begin", Some(Cmd::Snap)) => { expect = "snapshot.loaded"; if holder.map(|h| at[h] == "write.drawn" || at[h] == "write.item").unwrap_or(false) { *hist.entry("open-inside-apply-window".into()).or_insert(0) += 1; } }
             ("cmd.begin", Some(Cmd::Read(k, key))) => {
-                pc[t] += 1;
                 let out = ctl().m.lock().unwrap()[t].out.last().cloned().unwrap_or_default();
                 if views[t].is_some() {
-                    if field(&rep, "obs") != out { fail!("model-vs-impl", "thread {t} read {:?} through its view: real {out}, model {}", (k, hex(key)), field(&rep, "obs")); aborted = true; }
+                    if !nm && field(&rep, "obs") != out { fail!("model-vs-impl", "thread {t} read {:?} through its view: real {out}, model {}", (k, hex(key)), field(&rep, "obs")); aborted = true; }
                     reads.push((views[t].unwrap(), *k, key.clone(), out));
                     if let Some(h) = holder { if at[h] == "write.item" && items_left[h] > 0 { partial_read = true; } }
                 }
                 *hist.entry("view-read".into()).or_insert(0) += 1;
             }
             ("cmd.begin", Some(Cmd::ReadTop(k, key))) => {
-                pc[t] += 1;
                 let out = ctl().m.lock().unwrap()[t].out.last().cloned().unwrap_or_default();
-                if field(&rep, "top") != out { fail!("model-vs-impl", "thread {t} get {:?}: real {out}, model {}", (k, hex(key)), field(&rep, "top")); aborted = true; }
+                if !nm && field(&rep, "top") != out { fail!("model-vs-impl", "thread {t} get {:?}: real {out}, model {}", (k, hex(key)), field(&rep, "top")); aborted = true; }
                 *hist.entry("top-read".into()).or_insert(0) += 1;
             }
             ("write.locked", _) => { expect = "write.floored"; }
-            ("write.floored", Some(Cmd::Write(items))) => { expect = "write.drawn"; writes.push((c_before, items.clone())); }
-            ("write.drawn", _) | ("write.item", _) => {
-                if items_left[t] > 0 { expect = "write.item"; items_left[t] -= 1; } else { expect = "write.published"; }
-            }
-            ("write.published", _) => {
-                expect = "write.unlocked"; holder = None;
-            }
-            ("rotate.locked", _) => { holder = None; pc[t] += 1; *hist.entry("rotate".into()).or_insert(0) += 1; }
+            ("write.floored", _) => { expect = "write.drawn"; }
+            ("write.drawn", _) | ("write.item", _) => { if items_left[t] > 0 { expect = "write.item"; } else { expect = "write.published"; } }
+            ("write.published", _) => { expect = "write.unlocked"; }
+            ("rotate.locked", _) => { *hist.entry("rotate".into()).or_insert(0) += 1; }
             ("snapshot.loaded", _) => {
-                loaders -= 1; pc[t] += 1;
                 let out = ctl().m.lock().unwrap()[t].out.last().cloned().unwrap_or_default();
                 let real_view = out.strip_prefix("view=").unwrap_or("?").to_string();
-                if field(&rep, "view") != real_view { fail!("model-vs-impl", "thread {t} opened a snapshot: real instant {real_view}, model {}", field(&rep, "view")); aborted = true; }
+                if !nm && field(&rep, "view") != real_view { fail!("model-vs-impl", "thread {t} opened a snapshot: real instant {real_view}, model {}", field(&rep, "view")); aborted = true; }
                 views[t] = real_view.parse().ok();
                 *hist.entry("snapshot".into()).or_insert(0) += 1;
             }
             _ => {}
         }
-        if !expect.is_empty() && now != expect {
+        // bookkeeping follows the real code
+        if point == "snapshot.loaded" { loaders -= 1; }
+        if point == "rotate.locked" && holder == Some(t) { holder = None; }
+        match now {
+            "write.locked" | "rotate.locked" => { holder = Some(t); }
+            "write.drawn" => { if let Some(Cmd::Write(items)) = &cmd { writes.push((db.seqno() - 1, items.clone())); } }
+            "write.item" => { if items_left[t] > 0 { items_left[t] -= 1; } }
+            "write.unlocked" => { if holder == Some(t) { holder = None; } }
+            "snapshot.loaded" => { loaders += 1; }
+            _ => {}
+        }
+        if now == "cmd.begin" || now == "done" { if point != "write.unlocked" { pc[t] += 1; } }
+        if !nm && !expect.is_empty() && now != expect {
             fail!("model-vs-impl", "thread {t}: from {point} the real code reached {now}, the model's step corresponds to {expect}"); aborted = true; break;
         }
         if now == "write.unlocked" {
@@ -307,6 +312,7 @@ fn run_case(seed: u64, lean: &mut Lean, hist: &mut BTreeMap<String, u64>, sample
             release(t);
             let Some(nx) = wait_parked(t, long) else { fail!("impl-vs-oracle", "thread {t} did not return from its write within 10 s"); aborted = true; break; };
             now = nx; pc[t] += 1;
+            if holder == Some(t) { holder = None; }
             *hist.entry("write".into()).or_insert(0) += 1;
         }
         at[t] = now;
@@ -317,8 +323,8 @@ fn run_case(seed: u64, lean: &mut Lean, hist: &mut BTreeMap<String, u64>, sample
             if let Some(p) = pending.take() {
                 let Some(px) = wait_parked(p, long) else { fail!("impl-vs-oracle", "thread {p} did not get the journal lock after it was released"); break 'outer; };
                 let rep2 = lean.ask(&format!("conc.step {p}"));
-                if !rep2.starts_with("ok") { fail!("model-vs-impl", "model refuses the lock to thread {p}: {rep2}"); break; }
-                match &progs[p][pc[p]] { Cmd::Write(items) => { items_left[p] = items.len(); if px != "write.locked" { fail!("model-vs-impl", "thread {p} woke up at {px}"); break; } }, _ => { if px != "rotate.locked" { fail!("model-vs-impl", "thread {p} woke up at {px}"); break; } } }
+                if !nm && !rep2.starts_with("ok") { fail!("model-vs-impl", "model refuses the lock to thread {p}: {rep2}"); break; }
+                match &progs[p][pc[p]] { Cmd::Write(items) => { items_left[p] = items.len(); if !nm && px != "write.locked" { fail!("model-vs-impl", "thread {p} woke up at {px}"); break; } }, _ => { if !nm && px != "rotate.locked" { fail!("model-vs-impl", "thread {p} woke up at {px}"); break; } } }
                 at[p] = px; holder = Some(p);
                 trace.push(format!("t{p}: got the lock -> {px}"));
             }
@@ -357,10 +363,10 @@ fn run_case(seed: u64, lean: &mut Lean, hist: &mut BTreeMap<String, u64>, sample
             let want = show(&fin.get(&(k, key.clone())).cloned().flatten());
             if real != want { fail!("impl-vs-oracle", "final content of {:?}: {real}, acknowledged writes in seqno order give {want}", (k, hex(&key))); }
             let m = lean.ask(&format!("conc.top {} {}", k + 1, hex(&key)));
-            if m != format!("top={real}") { fail!("model-vs-impl", "final content of {:?}: real {real}, model {m}", (k, hex(&key))); }
+            if !nm && m != format!("top={real}") { fail!("model-vs-impl", "final content of {:?}: real {real}, model {m}", (k, hex(&key))); }
         } }
         let chk = lean.ask("conc.check");
-        if !nofloor && (!chk.contains("atomic=true") || !chk.contains("linearizable=true") || !chk.contains("wellbracketed=true")) { fail!("model-vs-impl", "model self-check failed: {chk}"); }
+        if !nm && !nofloor && (!chk.contains("atomic=true") || !chk.contains("linearizable=true") || !chk.contains("wellbracketed=true")) { fail!("model-vs-impl", "model self-check failed: {chk}"); }
     }
     let nontrivial = inside_window && !reads.is_empty();
     if partial_read { *hist.entry("view-read-while-batch-partially-applied".into()).or_insert(0) += 1; }
